@@ -3,12 +3,13 @@ import os, itertools
 from fractions import Fraction as Fr
 import vlib
 
-MODULE = 'GudhiVerif.Properties.C20b'
+MODULE = 'GudhiVerif.Properties.C20c'
 THEOREMS = ['PermProto.shift_apply', 'PermProto.shift_ne', 'PermProto.verts_distinct', 'PermProto.verts_length', 'PermProto.verts_getD', 'PermProto.face_spec', 'PermProto.shift_perm',
             'C20.mem_choose', 'C20.choose_length', 'C20.faces_are_vertex_subsets', 'C20.vertsL_length', 'C20.cofaces_sound', 'C20.orderedPartitions_shape',
-            'C20b.locate_v', 'C20b.locate_parts', 'C20b.levels_spec', 'C20b.index_in_unique_part', 'C20b.own_level_mem', 'C20b.parts_nonempty', 'C20b.last_part_contains_d']
-PARTIAL = ['C20_coface_partial: the cofaces are specified by exhaustive search over all representations near the simplex (sound by construction: each listed simplex has the requested dimension and contains the vertices); '
-           'that the search space contains every coface (base vertex = vertex of the simplex minus a 0/1 vector) is argued in DESIGN.md, and the C++ iterator chain (ordered set partitions x integer combinations) is tied by correspondence only',
+            'C20b.locate_v', 'C20b.locate_parts', 'C20b.levels_spec', 'C20b.index_in_unique_part', 'C20b.own_level_mem', 'C20b.parts_nonempty', 'C20b.last_part_contains_d',
+            'C20c.mem_bits', 'C20c.vertex_minus_base_is_bits', 'C20c.orderedPartitions_valid', 'C20c.cofaces_complete', 'C20c.mem_assignments', 'C20c.blocks_mem_orderedPartitions']
+PARTIAL = ['C20_coface_partial: the coface specification (exhaustive search) is proved sound and complete (cofaces_sound, cofaces_complete, blocks_mem_orderedPartitions: every representation with d in the last part whose vertices contain the simplex is listed); '
+           'the C++ iterator chain (ordered set partitions x integer combinations) is tied to it by correspondence only',
            'C20_locate_partial: exact location is an executable specification (floor, fractional parts grouped), compared with the code and with an independent barycentric-coordinate oracle; Eigen\'s QR solve for transformed triangulations is trusted up to the documented tolerance']
 ASSUMPTIONS = ['ambient dimensions 1-4; query points with dyadic lattice coordinates (denominators 1,2,4,8) so that the plain Freudenthal case is exact in double',
                'transformed triangulations: integer unimodular matrices / the Coxeter root matrix; the located simplex is compared after dropping vertices of barycentric weight <= 1e-9 (documented tolerance), weights must be >= -1e-7']
@@ -186,7 +187,9 @@ def gen_locate_affine(rng, kind):
     d = rng.choice([1, 2, 3, 3, 4]); scale = rng.choice(['1', '2', '0.5', '4'])
     if kind == 1:
         m = unimodular(rng, d); off = [rng.randrange(-3, 4) for _ in range(d)]
-        lines = ['tri %d 1 %s %s %s' % (d, scale, ' '.join(str(x) for row in m for x in row), ' '.join(map(str, off)))]
+        sub = rng.choice([1, 1, 3, 4, 4, 5])        # 1: constructor with matrix and offset; 3/5: plain triangulation + change_matrix / change_offset in both orders; 4: change_offset only
+        if sub == 4: m = [[1 if i == j else 0 for j in range(d)] for i in range(d)]
+        lines = ['tri %d %d %s %s %s' % (d, sub, scale, ' '.join(str(x) for row in m for x in row), ' '.join(map(str, off)))]
     else:
         lines = ['tri %d 2 %s' % (d, scale)]
     for _ in range(rng.randrange(3, 9)):
